@@ -35,6 +35,24 @@ CHECKS = {
         "enumerated, deeper programs are random.",
         note="restored = identical object or equal value of the same type; only vars(settings) is observed",
     ),
+    "C03": dict(
+        level="exploration",
+        technique="runtime monitor on Term.membership of the 20 shape terms + Constant (scalar closed-form reference models, element-wise) + offline monotonicity checker over recorded points",
+        text="Every observed membership element of a validly parameterised shape term is compared with a scalar closed form written from the "
+        "docstrings, and checked for range, NaN-iff-NaN, shape and array-vs-scalar agreement; workloads aim at every breakpoint and its two "
+        "floating-point neighbours, +-inf and NaN, in float/0-d/1-D/2-D form; every piece of every definition must be reached or the run "
+        "is inconclusive. Held on the observed executions only.",
+        note="tolerance 1e-12 (Arc/SemiEllipse: conditioning-aware); invalid/default parameterisations are out of domain; SigmoidDifference read as h|a-b|",
+    ),
+    "C08": dict(
+        level="exploration",
+        technique="trace monitor on Activation.activate (7 classes) recording Rule.deactivate/activate_with/trigger and Consequent.modify events; offline checker against a scalar selection model",
+        text="For every observed block activation the event trace, the triggered flags, the final degrees and the appended fuzzy terms are "
+        "compared with the selection the definition prescribes for the observed degrees; blocks of up to 3 (quick) / 4 (thorough) rules "
+        "are enumerated exhaustively over a degree alphabet with ties and zeros, all parameter values and one disabled/unloaded rule in "
+        "every position; batches must be rejected by the non-General methods.",
+        note="degrees are those returned by Rule.activate_with (their value is C06's business; in the constructed blocks they are also checked against weight x input); trigger events of disabled rules are not observable effects and are ignored",
+    ),
 }
 NOT_APPLICABLE = [
     {"property_id": p, "reason": "check not built yet in this session (work in progress; see DESIGN.md §4)"} for p in ALL if p not in CHECKS
